@@ -20,7 +20,9 @@ func addrRange(b []byte) (uintptr, uintptr) {
 	return lo, lo + uintptr(len(b))
 }
 
-func overlaps(alo, ahi, blo, bhi uintptr) bool { return alo < bhi && blo < ahi && alo != ahi && blo != bhi }
+func overlaps(alo, ahi, blo, bhi uintptr) bool {
+	return alo < bhi && blo < ahi && alo != ahi && blo != bhi
+}
 
 // renderStable renders everything of a delivered message that C09 talks about.
 func renderStable(m *service.Message) string {
